@@ -215,4 +215,55 @@ theorem step_enters_unreg {s s' : CSh} {t t' : CTh} (hm : (s', t') ∈ step s t)
       exfalso
       exact hne (by simp [hc])
 
+/-! ### whole calls, executed alone (sequential misuse) -/
+
+/-- The whole call, executed alone: `Unlock(x)` of an entity without a mutex. -/
+theorem call_unlock_unregistered (s : CSh) (t : CTh) (x : Nat) (r : List DOp) (others : List CTh)
+    (hc : t.ctl = .idle) (hs : t.script = .unlock x :: r) (hd : s.dm = false) (he : s.ent x = none) :
+    runSched sys (s, t :: others) [(0, 0), (0, 0), (0, 0)] = (s, { t with ctl := .dead, script := r } :: others) := by
+  obtain ⟨heap, ent, cnt, next, dm⟩ := s
+  obtain ⟨ctl, iop, curEnt, cur, ipc, rd, wr, held, hobj, script⟩ := t
+  simp only at hc hs hd he
+  subst hc hs hd
+  simp [runSched, sys, step, he]
+
+theorem lookAll_congr {s1 s2 : CSh} (h1 : s1.ent = s2.ent) (h2 : s1.cnt = s2.cnt) :
+    ∀ (xs seen : List Nat), lookAll s1 seen xs = lookAll s2 seen xs := by
+  intro xs
+  induction xs with
+  | nil => intro _; rfl
+  | cons x xs ih => intro seen; simp only [lookAll, h1, h2, ih]
+
+/-- `RUnlock(xs…)` whose lookup fails. -/
+theorem call_runlock_lookup (s : CSh) (t : CTh) (xs : List Nat) (r : List DOp) (others : List CTh)
+    (hc : t.ctl = .idle) (hs : t.script = .runlock xs :: r) (hd : s.dm = false)
+    (he : ∃ x ∈ xs, s.ent x = none ∨ s.cnt x < xs.count x) :
+    runSched sys (s, t :: others) [(0, 0), (0, 0), (0, 0)] = (s, { t with ctl := .dead, script := r } :: others) := by
+  have hl := (lookAll_none_iff s xs []).mpr (by simpa using he)
+  obtain ⟨heap, ent, cnt, next, dm⟩ := s
+  obtain ⟨ctl, iop, curEnt, cur, ipc, rd, wr, held, hobj, script⟩ := t
+  simp only at hc hs hd
+  subst hc hs hd
+  have hl' : lookAll { heap := heap, ent := ent, cnt := cnt, next := next, dm := true } [] xs = none := by
+    rw [lookAll_congr (s1 := { heap := heap, ent := ent, cnt := cnt, next := next, dm := true })
+      (s2 := { heap := heap, ent := ent, cnt := cnt, next := next, dm := false }) rfl rfl]; exact hl
+  simp [runSched, sys, step, hl']
+
+/-- `Unlock(x)` of an entity that is registered but not write-locked (or has readers): the call panics inside
+`StarvingMutex.Unlock`; nothing but the internal mutex of that object has changed. -/
+theorem call_unlock_wrong_mode (s : CSh) (t : CTh) (x o : Nat) (r : List DOp) (others : List CTh)
+    (hc : t.ctl = .idle) (hs : t.script = .unlock x :: r) (hd : s.dm = false) (he : s.ent x = some o)
+    (hm : (s.heap o).m = false) (hw : 0 < (s.heap o).readers ∨ (s.heap o).writer = false) :
+    ∃ t', runSched sys (s, t :: others) (List.replicate 5 (0, 0)) =
+        ({ s with heap := upd s.heap o { s.heap o with m := true } }, t' :: others) ∧
+      t'.ipc = .dead ∧ t'.script = r := by
+  obtain ⟨heap, ent, cnt, next, dm⟩ := s
+  obtain ⟨ctl, iop, curEnt, cur, ipc, rd, wr, held, hobj, script⟩ := t
+  simp only at hc hs hd he hm hw
+  subst hc hs hd
+  simp [runSched, sys, step, he, startInner, start, proj, mxStepG, ulCStep, hm, upd, hw, List.replicate]
+  refine ⟨_, ⟨?_, rfl⟩, rfl, rfl⟩
+  funext y
+  by_cases hy : y = o <;> simp [upd, hy]
+
 end Hive.SyncMutex.Comp
